@@ -990,7 +990,8 @@ Definition visit_custom_gate (name : string) (args : list expr) (qubits : list q
       s <- getst;;
       guard (negb (smem name (gstack s))) EValidation;;;
       modify (fun s => with_gstack s (name :: gstack s));;;
-      modify (push_ctx CGate);;;
+      (* the body has a scope of its own: global constants only, nothing of the caller *)
+      modify (fun s => push_scope (push_ctx CGate s));;;
       out <- concatMM (fun op =>
                match op with
                | SGate mods gname gargs gqs =>
@@ -1019,7 +1020,7 @@ Definition visit_custom_gate (name : string) (args : list expr) (qubits : list q
                    visit_rec (SPhase (if inverse then mods ++ [MInv] else mods) arg' gqs')
                | _ => verr
                end) body;;
-      modify pop_ctx;;;
+      modify (fun s => pop_ctx (pop_scope s));;;
       modify (fun s => with_gstack s (tl (gstack s)));;;
       emit out
   end.
@@ -1229,7 +1230,10 @@ Definition visit_for (t : ctype) (var : string) (set : forset) (body : list stmt
          d <- decl t var init;;
          s <- getst;;
          match get_visible s var with
-         | Some x => modify (fun s => update_var s var (set_val x (VVScalar v)))
+         | Some x =>
+             (* the element is stored as an assignment to the loop variable's declared type stores it *)
+             cv <- assign_value (v_kind x) (v_size x) v;;
+             modify (fun s => update_var s var (set_val x (VVScalar cv)))
          | None => ret tt
          end;;;
          b <- visit_block body;;
